@@ -33,7 +33,9 @@ REQUIRED_COUNTERS = ['faults_fired', 'faults_fired_while_building_algorithm', 'r
 MIN_DISTINCT = {'quick': 120, 'thorough': 1000}
 
 EXC = ['ValueError', 'KeyError', 'RuntimeError', 'StubFault', 'AssertionError', 'TypeError',
-       'ZeroDivisionError', 'RpcError']
+       'ZeroDivisionError', 'RpcError',
+       # the error classes the Pythia interface documents for policies (retryable / not)
+       'TemporaryPythiaError', 'InactivateStudyError', 'LoadTooLargeError', 'CancelComputeError']
 DEPLOYMENTS = ['local-ram', 'local-sqlmem', 'split-ram']
 
 
@@ -102,9 +104,14 @@ def gen_scenario(rng):
   meta = {'site': site, 'schedule': schedule, 'kind': kind, 'exc': exc if kind == 'raise' else None,
           'msg': (msg[0] if msg else 'plain')}
 
+  # the algorithm fails for the whole request: every further algorithm call made while this
+  # request is being served (a service may retry) meets the same failure. (A single transient
+  # failure followed by a successful retry is not "a failing algorithm" and is not judged.)
+  persist = 50
+
   def fault_entry(count):
     if kind == 'raise':
-      return {'raise': exc, 'msg': msg}
+      return {'raise': exc, 'msg': msg, 'repeat': persist}
     if kind == 'short':
       return {'delta': -rng.randint(1, count)}
     if kind == 'zero':
@@ -122,7 +129,7 @@ def gen_scenario(rng):
         # the failure happens while the algorithm is being built (policy factory /
         # constructor), i.e. outside policy.suggest(): it is not wrapped in RuntimeError
         if faulty:
-          c['_factory_fault'] = {'site': rng.choice(['factory', 'constructor']), 'raise': exc, 'msg': msg}
+          c['_factory_fault'] = {'site': rng.choice(['factory', 'constructor']), 'raise': exc, 'msg': msg, 'repeat': persist}
       elif faulty:
         c['_stub_entry'] = fault_entry(count + 6)
       calls.append(c)
@@ -131,7 +138,7 @@ def gen_scenario(rng):
       calls.append({'op': 'SuggestTrials', 'study': study, 'count': 1, 'client': 'w1',
                     '_stub_entry': {'delta': 0}})
       calls.append({'op': 'CheckTrialEarlyStoppingState', 'trial': f'{study}/trials/{rng.randint(1, 2)}',
-                    '_es_entry': {'raise': exc, 'msg': msg} if (faulty and kind == 'raise') else {},
+                    '_es_entry': {'raise': exc, 'msg': msg, 'repeat': persist} if (faulty and kind == 'raise') else {},
                     '_fault': faulty and kind == 'raise'})
   # follow-ups with the fault off
   for _ in range(rng.randint(2, 8)):
@@ -269,9 +276,9 @@ def client_poll_probe(ctx, index):
   case = {'probe': 'client-poll', 'exc': exc, 'index': index, 'site': site, 'msg': msg}
   try:
     if site == 'build':
-      ctl.factory_faults.append({'site': 'factory', 'raise': exc, 'msg': msg})
+      ctl.factory_faults.append({'site': 'factory', 'raise': exc, 'msg': msg, 'repeat': 50})
     else:
-      ctl.plan.append({'raise': exc, 'msg': msg})
+      ctl.plan.append({'raise': exc, 'msg': msg, 'repeat': 50})
     try:
       got = client.get_suggestions(suggestion_count=2)
       first = 'returned'
